@@ -32,6 +32,15 @@ CHECKS = {
  "C06": ("exploration", "runtime monitor: liveness of isolated child processes (recover around each call, cursor file, stall watchdog with solo re-confirmation) over hostile inputs to all 9 decoding entry points and their follow-up operations",
          "About 250k seeded inputs (structural/byte mutants of valid messages, the COSE_Key mutation grid, random bytes, regression inputs) go to every decoding entry point in child processes; every accepted value is re-encoded, verified, countersigned, its nested countersignatures exercised, keys converted and used. Recovered panics, runtime fatal errors and confirmed stalls are violations; the watchdog alone never decides.",
          "trusted: Go runtime crash reporting; a stall counts only if it repeats alone for 120 s", "DESIGN.md section 4 C06"),
+ "C07": ("exploration", "runtime monitor: accept + verify results of the library on messages produced and signed by an independent reference implementation (reference encoder choices, reference Sig_structure / Countersign_structure, stdlib crypto)",
+         "Conforming Sign1/Untagged/COSE_Sign/Signature/Countersignature messages with nested countersignatures (single/list, depth <= 3) are written by refcbor with every encoder choice a peer may make and signed over those wire bytes; the library must decode, verify every signature and nested countersignature from the decoded value, and the decoded plain header values must match the reference tree.",
+         "trusted: refcbor/refcose/refcrypto; documented limits of DESIGN.md section 3 delimit 'conforming'", "DESIGN.md section 4 C07"),
+ "C08": ("exploration", "runtime monitor: repetition oracle (16x in-process, 2 freshly started child processes compared by SHA-256), refcbor canonical-form predicates on every output and every protected content, spy-recorded signed bytes vs emitted bytes, aliasing snapshot, closure through the real decoders",
+         "Every encoder and Sign helper is run over seeded values of the Go-side data model with adversarial key sets; outputs must be byte-stable within and across processes, deterministic CBOR at every layer, identical to the signed protected bytes, unaffected by later encodes, and decode to an equivalent value.",
+         "trusted: refcbor IsCanonical (self-test on RFC 8949 appendix A), refcose GoToNode equivalence; values restricted to the supported model", "DESIGN.md section 4 C08"),
+ "C09": ("exploration", "runtime monitor: re-encoding compared byte-for-byte with a prediction computed from the input by the reference parser; real Verify before/after; decode/encode cycles; fixed-point oracle with raw bytes discarded",
+         "Accepted wire messages (reference-signed with all encoder choices and nested countersignatures, plus accepted structural mutants) are decoded and re-encoded: both header buckets of every layer must be reproduced verbatim, signatures must still verify, 5 cycles must be stable, and the encoding obtained after discarding raw bytes must be a fixed point of decode/encode.",
+         "trusted: refcbor spans (raw item boundaries), prediction rules of appendix A.4", "DESIGN.md section 4 C09"),
 }
 REASON_NOT_BUILT = "check not built yet in this round; no claim is made (see DESIGN.md build order)"
 
